@@ -140,6 +140,7 @@ Lemma erase_ref s index count : inv s -> 0 <= index <= get_size s -> 0 <= count 
     (take index (contents s) ++ drop (index + Z.min count (get_size s - index)) (contents s)).
 Proof.
   intros I Hi Hc. pose proof I as (Hcap & _ & Hsz & _). unfold cap_ok in Hcap.
-  unfold erase_m. rewrite (sz_id (get_size s - index)) by lia. rewrite min_sz_min.
+  unfold erase_m. replace (index <=? get_size s) with true by lia.
+  rewrite (sz_id (get_size s - index)) by lia. rewrite min_sz_min.
   apply erase_range_ref; [exact I|lia|lia|lia].
 Qed.
